@@ -4,7 +4,7 @@ A prefix is extended unless BOTH sides are dead strictly inside the string (DESI
 both parsers are online, so every extension of such a prefix is rejected by both.
 """
 from ..model import refparse, reflex
-from . import real as realmod
+from . import real as realmod, clone
 
 import copy
 
@@ -21,7 +21,7 @@ def get_real():
     if _real is None:
         if _template is None:
             _template = _snapshot.api().new_parser()
-        _real = realmod.Real(copy.deepcopy(_template))
+        _real = realmod.Real(clone.pristine(_template))
     return _real
 
 
